@@ -48,7 +48,7 @@
 From Coq Require Import List ZArith Bool.
 Import ListNotations.
 From LC Require Import Base Tree Fp Lookup Api ScanAction Tokens Lexer Parser GrammarFacts Reader Writer WriterFacts LexWrite ParseWrite
-  ParseComplete ParseFail ParseExact ParseTotal ParseNames ParseSyntax ReadSyntax LalrEngine LalrCheck LalrFacts Bisim.
+  ParseComplete ParseFail ParseExact ParseTotal ParseNames ParseSyntax ReadSyntax LalrEngine LalrCheck LalrFacts ReadLalr Bisim.
 From LC.gen Require Import GrammarTables.
 From LC.gen Require Import Consts.
 Local Open Scope Z_scope.
@@ -453,3 +453,20 @@ Example C02_lalr_example :
   (exists s, lalr_parse LalrEngine.the_tables true (lalr_fuel ex_syntax) (start ex_syntax) = PErr PErrSyntax s /\
              p_config true (start ex_syntax) = PErr PErrSyntax s /\ p_line s = 4 /\ p_read s = 5%nat).
 Proof. split; [exact (proj1 lalr_nested) | exact lalr_syntax]. Qed.
+
+
+(* ---- the reader over the compiled tables (ReadLalr.v): config_read with bison's driver over the regenerated tables in
+   place of the recursive-descent model is the same function - every field of the result - so every read-level theorem of
+   this file (and of C01, C03, C09, C10, C20) is a theorem about the table-driven reader ---- *)
+Theorem C02_read_lalr_eq : forall atof FS,
+  (forall f content, fs_lookup FS f = Some (FFile content) -> bytes_ok content) ->
+  forall c top text, bytes_ok text ->
+  config_read_lalr atof FS c top text = config_read atof FS c top text.
+Proof. exact config_read_lalr_eq. Qed.
+Print Assumptions C02_read_lalr_eq.
+
+Theorem C02_read_file_lalr_eq : forall atof FS,
+  (forall f content, fs_lookup FS f = Some (FFile content) -> bytes_ok content) ->
+  forall c path, config_read_file_lalr atof FS c path = config_read_file atof FS c path.
+Proof. exact config_read_file_lalr_eq. Qed.
+Print Assumptions C02_read_file_lalr_eq.
